@@ -42,7 +42,7 @@ def env_at_clean(case, ops):
 
 
 class CleanBase(Prop):
-    fields = {"obs": ["outcome", "errors", "logs", "writes", "line"], "fs": "*", "counters": "*", "clean": CLEAN_FIELDS}
+    fields = {"obs": ["outcome", "errors", "logs", "writes", "line"], "fs": "*", "counters": "*", "clean": CLEAN_FIELDS, "readsum": "*"}
 
     def gen_tree(self, r, sort_names=False, nontest_ids=False):
         """Returns (setup ops, run ops, info). Layout: def/ holds the default multi-entry file (+ stale entries),
@@ -146,9 +146,10 @@ class C09(CleanBase):
             setup, run, info = self.gen_tree(r, sort_names=True)
             ci, upd = r.choice(G.ENVS)
             sort = r.chance(1, 2)
-            ops = setup + run + [G.op_setenv(ci, upd), {"op": "dumpfs"}, {"op": "clean", "sort": sort, "count": info["count"]}, {"op": "dumpfs"}]
+            colour = r.chance(1, 3)      # Clean prints its summary with ANSI colours
+            ops = setup + run + [G.op_setenv(ci, upd), {"op": "dumpfs"}, {"op": "clean", "sort": sort, "count": info["count"], "colour": colour}, {"op": "dumpfs"}]
             if r.chance(1, 3):
-                ops += [{"op": "clean", "sort": sort, "count": info["count"]}, {"op": "dumpfs"}]
+                ops += [{"op": "clean", "sort": sort, "count": info["count"], "colour": colour}, {"op": "dumpfs"}]
             cases.append({"ci": False, "updvar": "unset", "colour": False, "ops": ops,
                           "meta": {"mode": "ci=%s upd=%s sort=%s" % (ci, upd, sort), "ci": ci, "upd": upd, "sort": sort,
                                    "tests": [hx(t) for t in info["tests"]], "ncalls": {hx(t): n_ for t, n_ in info["ncalls"].items()}}})
